@@ -26,9 +26,15 @@ Statement notes.
    of each call's codec by itself is not enough because every call carries its own
    codec observations (`hist_codec_needs_agreement`).  Histories without
    `popitem` need no codec hypothesis (`irun_refines_no_popitem`).
- * The model of `Index.__setitem__` returns `None` also when `Cache.set` raised
-   (unbindable key, unencodable text); `OSpec.setitem` does the same and leaves
-   the dictionary alone.
+ * Exceptions propagate as in persistent.py: `index[key] = value` returns the
+   exception of `Cache.set` (unbindable key, unencodable text) and changes nothing;
+   `update` stops at the first assignment that raises (the pairs before it stay
+   assigned); `popitem` whose `del _cache[key]` does not find the key read back
+   raises KeyError and rolls its block back.  `OSpec.setitem` / `OSpec.update`
+   raise the same exceptions; `OSpec.popitem` knows nothing about codecs, so
+   `hcodec` stays (`popitem_irefines_needs_codec`: without it the model raises
+   KeyError where the dictionary removes the item).  `*_propagates_error` below
+   are concrete instances.
 -/
 import DC.Proofs.IRefineOps
 import DC.Proofs.IRefineBlock
@@ -82,11 +88,7 @@ theorem setitem_step (x : Index) (m : ODict) (E : Externals) (now : Int) (k v : 
   subst hr
   obtain ⟨h1, h2, h3⟩ := irf_set x.cache E now k v hok.inv
   refine ⟨iok_of hok h3 h2, h2, ?_, h1⟩
-  show Out.none = _
-  unfold OSpec.setitem
-  split
-  · rfl
-  · simp only; split <;> rfl
+  exact irf_set_out x.cache E now k v hok.inv
 
 theorem delitem_step (x : Index) (m : ODict) (E : Externals) (now : Int) (k : PyVal)
     (hok : IOk x) (hr : IRefines x m) :
@@ -163,7 +165,20 @@ theorem update_step (x : Index) (m : ODict) (E : Externals) (now : Int) (kvs : L
     have h1 := setitem_step x m E now kv.1 kv.2 hok hr
     have h2 := ih (x.setitem E now kv.1 kv.2).1 (OSpec.setitem m E x.cache.cfg kv.1 kv.2).1 h1.ok h1.rel
     rw [h1.cfg] at h2
-    exact ⟨h2.ok, h2.cfg.trans h1.cfg, rfl, h2.rel⟩
+    rw [Index.update, OSpec.update]
+    obtain ⟨a1, a2, a3, a4⟩ := h1
+    obtain ⟨b1, b2, b3, b4⟩ := h2
+    cases hx : x.setitem E now kv.1 kv.2 with
+    | mk x1 o =>
+      cases hm : OSpec.setitem m E x.cache.cfg kv.1 kv.2 with
+      | mk m1 o' =>
+        rw [hx] at a1 a2 a3 a4 b1 b2 b3 b4
+        rw [hm] at a3 a4 b3 b4
+        simp only at a1 a2 a3 a4 b1 b2 b3 b4
+        subst a3
+        cases o with
+        | exc e => exact ⟨a1, a2, rfl, a4⟩
+        | _ => exact ⟨b1, b2.trans a2, b3, b4⟩
 
 /-! the per-call theorems: same result as the dictionary call, and the relation is preserved -/
 
@@ -380,15 +395,28 @@ theorem step_keys (m : ODict) (cfg : Cfg) (op : IOp) :
   | iter E asc => exact .inl hK
   | clear => exact nomatch hK
   | update E now kvs =>
-    simp only [OSpec.step, OSpec.update] at hK
+    simp only [OSpec.step] at hK
     induction kvs generalizing m with
     | nil => exact .inl hK
     | cons kv kvs ih =>
-      rcases ih (OSpec.setitem m E cfg kv.1 kv.2).1 hK with h | h
-      · rcases setitem_keys m E cfg kv.1 kv.2 K h with h2 | h2
-        · exact .inl h2
-        · exact .inr ⟨E, kv.1, rfl, h2⟩
-      · exact .inr h
+      rw [OSpec.update] at hK
+      have hs := setitem_keys m E cfg kv.1 kv.2
+      cases hm : OSpec.setitem m E cfg kv.1 kv.2 with
+      | mk m1 o =>
+        rw [hm] at hK hs
+        have hstep : ∀ K, K ∈ ODict.keys m1 → K ∈ m.keys ∨ ∃ E' k, opE (.update E now (kv :: kvs)) = some E' ∧
+            K = keyOf E' cfg k := by
+          intro K hK1
+          rcases hs K hK1 with h2 | h2
+          · exact .inl h2
+          · exact .inr ⟨E, kv.1, rfl, h2⟩
+        cases o with
+        | exc e => exact hstep K hK
+        | _ =>
+          simp only at hK
+          rcases ih m1 hK with h | h
+          · exact hstep K h
+          · exact .inr h
 
 theorem step_keysRT (D : PyVal → Bytes) (m : ODict) (cfg : Cfg) (op : IOp) (hd : cfg.disk = .pickle)
     (hE : ∀ E, opE op = some E → CodecOk D E) (hk : KeysRT D m) :
@@ -634,7 +662,8 @@ theorem iter_irefines_needs_page :
 
 /-- `hcodec` is necessary (`Index.popitem_end_needs_codec` in refinement form): a well-formed Index
 whose only key is not the encoding of any Python key; the dictionary's `popitem` removes the
-binding, the model's returns the item but leaves the row (not reachable through `Disk.put`) -/
+binding and returns the item, the model's raises KeyError (`del _cache[key]` does not find the key
+read back), rolls its block back and leaves the row (not reachable through `Disk.put`) -/
 theorem popitem_irefines_needs_codec :
     ∃ (x : Index) (m : ODict), IOk x ∧ IRefines x m ∧
       ¬ IRefines (x.popitem Cache.exE 0 true).1 (OSpec.popitem m Cache.exE x.cache.cfg true).1 := by
@@ -660,14 +689,56 @@ def exEI2 : Externals :=
 /-- the key-codec hypothesis of the history theorem must be an agreement between the calls
 (`HistCodec`: one `D` for all), not a law of each call's codec by itself: `exEI` and `exEI2` each
 invert their own key pickling, yet after `index[obj] = 1` under the first, `popitem()` under the
-second returns the item without removing it (an artefact of per-call codec observations in the
-model, not of the code: one process pickles consistently) -/
+second raises KeyError and removes nothing, where the dictionary removes the item (an artefact of
+per-call codec observations in the model, not of the code: one process pickles consistently) -/
 theorem hist_codec_needs_agreement :
     (∀ k, exEI.loads (exEI.dumpsK k) = k) ∧ (∀ k, exEI2.loads (exEI2.dumpsK k) = k) ∧
     ¬ IRefines (Index.run exIndex [.setitem exEI 0 (.obj [7]) (.int 1), .popitem exEI2 0 true])
       (OSpec.run [] exIndex.cache.cfg [.setitem exEI 0 (.obj [7]) (.int 1), .popitem exEI2 0 true]) := by
   refine ⟨exEI_codec.2, fun k => exEI_codec.2 k, ?_⟩
   show ¬ (List.map _ _ = _)
+  decide +kernel
+
+/-! ### exceptions propagate (concrete instances) -/
+
+/-- `index['a'] = '\ud800'`: the value cannot be stored (text with a lone surrogate) —
+UnicodeEncodeError propagates from `Cache.set`, the Index is unchanged, and the dictionary call
+raises the same exception and is unchanged -/
+theorem setitem_propagates_error :
+    (match (exIndex.setitem exEI 0 (.str [97]) (.str [0xD800])).2 with
+      | .exc "UnicodeEncodeError" => true | _ => false) = true ∧
+    (exIndex.setitem exEI 0 (.str [97]) (.str [0xD800])).1.cache.rows = [] ∧
+    (match (OSpec.setitem [] exEI exIndex.cache.cfg (.str [97]) (.str [0xD800])).2 with
+      | .exc "UnicodeEncodeError" => true | _ => false) = true ∧
+    (OSpec.setitem [] exEI exIndex.cache.cfg (.str [97]) (.str [0xD800])).1 = [] ∧
+    (match (exIndex.setitem exEI 0 (.str [0xD800]) (.int 1)).2 with
+      | .exc "UnicodeEncodeError" => true | _ => false) = true := by
+  decide +kernel
+
+/-- `index.update([('a', 1), ('b', '\ud800'), ('c', 3)])`: `a` is assigned, the assignment to `b`
+raises UnicodeEncodeError, which propagates; `c` is never assigned.  Model and dictionary agree. -/
+theorem update_propagates_error :
+    (match (exIndex.update exEI 0 [(.str [97], .int 1), (.str [98], .str [0xD800]), (.str [99], .int 3)]).2 with
+      | .exc "UnicodeEncodeError" => true | _ => false) = true ∧
+    (exIndex.update exEI 0 [(.str [97], .int 1), (.str [98], .str [0xD800]), (.str [99], .int 3)]).1.cache.rows.map
+      (·.key) = [.text [97]] ∧
+    (match (OSpec.update [] exEI exIndex.cache.cfg
+        [(.str [97], .int 1), (.str [98], .str [0xD800]), (.str [99], .int 3)]).2 with
+      | .exc "UnicodeEncodeError" => true | _ => false) = true ∧
+    (OSpec.update [] exEI exIndex.cache.cfg
+        [(.str [97], .int 1), (.str [98], .str [0xD800]), (.str [99], .int 3)]).1.keys = [(.text [97], true)] ∧
+    (match (exIndex.update exEI 0 [(.str [97], .int 1), (.str [99], .int 3)]).2 with
+      | .none => true | _ => false) = true := by
+  decide +kernel
+
+/-- `popitem()` on the Index of `popitem_end_needs_codec` (its only key is not the encoding of any
+Python key): `del _cache[key]` does not find the key read back — KeyError propagates, the block is
+rolled back (the row stays, no transaction left open) -/
+theorem popitem_propagates_error :
+    (match (exIx.popitem Cache.exE 0 true).2 with | .exc "KeyError" => true | _ => false) = true ∧
+    (exIx.popitem Cache.exE 0 true).1.cache.rows = exIx.cache.rows ∧
+    (exIx.popitem Cache.exE 0 true).1.cache.depth = 0 ∧
+    (exIx.popitem Cache.exE 0 true).1.cache.snap.isNone = true := by
   decide +kernel
 
 end DC.Index
